@@ -137,9 +137,18 @@ func runC03(c *harness.Ctx, idx int) {
 	}
 	g, reg := mon.GuardedCopy(msg, false)
 	defer reg.Free()
+	// memory the destination pointed to before the call is the caller's: the decoder
+	// must give transmitted values fresh memory, never write through old pointers
+	var oldPieces []mon.Piece
+	mon.Walk(act.Elem(), "", &oldPieces)
+	oldPieces = mon.DropStatic(oldPieces)
+	oldImage := mon.Image(oldPieces)
 	setPoison(idx%2 == 1) // pool sanitizer in every other case
 	dr := fDecode(g, act.Interface())
 	setPoison(false)
+	if d := mon.CompareImage(oldPieces, oldImage); d != "" && !dr.panicked() && dr.err == nil {
+		c.Violation("old-memory", "C03/old-pointee-written", "DecodeObject wrote into memory the destination referenced before the call instead of allocating: %s", d)
+	}
 	sig := structSig(t)
 	switch {
 	case dr.panicked():
